@@ -1,8 +1,14 @@
 (** C05 - binary32 cell counts are exact: adding 1.0f32 to the binary32 value of k gives the
-    binary32 value of k + 1, checked by computation (SpecFloat at precision 24) for every
-    k below 2^18.  Kept in its own file because the computation takes about half a minute. *)
-From Coq Require Import List NArith ZArith Bool Lia SpecFloat.
+    binary32 value of k + 1 for every k below 2^24.  The standard library's executable SpecFloat
+    functions at precision 24 / emax 128 (Common/B32.v) are related to Flocq's BinarySingleNaN
+    operations (same argument as Flocq's IEEE754/PrimFloat.v gives for binary64), whose correctness
+    theorems (Bplus_correct, binary_normalize_correct) say the result is the rounding of the exact
+    sum; an integer below 2^24 is in the format (24-bit significand, exponent 0), so nothing is
+    rounded. *)
+From Coq Require Import List NArith ZArith Bool Lia Reals Lra SpecFloat.
+From Flocq Require Import Core.Core IEEE754.BinarySingleNaN.
 From LinfaVerif Require Import Common.Num Common.B32.
+
 Lemma sf_eqb_eq a b : sf_eqb a b = true -> a = b.
 Proof.
   destruct a as [s|s| |s m e], b as [t|t| |t n f]; simpl; intros H; try discriminate; auto.
@@ -12,34 +18,117 @@ Proof.
     apply Bool.eqb_prop in H1. apply Pos.eqb_eq in H2. apply Z.eqb_eq in H3. congruence.
 Qed.
 
-Definition succ_exact (k : N) : bool :=
-  sf_eqb (add B32_ops (of_N B32_ops k) (one B32_ops)) (of_N B32_ops (N.succ k)).
+(** * SpecFloat at (24, 128) = Flocq's binary32 with round-to-nearest-even *)
+Local Instance Hprec32 : FLX.Prec_gt_0 p32 := eq_refl _.
+Local Instance Hmax32 : Prec_lt_emax p32 e32 := eq_refl _.
+Local Notation bf32 := (binary_float p32 e32).
+Local Notation fexp32 := (SpecFloat.fexp p32 e32).
 
-Definition chk_step (st : bool * N) : bool * N := (fst st && succ_exact (snd st), N.succ (snd st)).
-Definition chk (n : N) : bool := fst (N.iter n chk_step (true, 0%N)).
-
-Lemma chk_iter n : snd (N.iter n chk_step (true, 0%N)) = n /\
-  (fst (N.iter n chk_step (true, 0%N)) = true -> forall k, (k < n)%N -> succ_exact k = true).
+Lemma rne_equiv32 s m l : SpecFloat.round_nearest_even m l = choice_mode mode_NE s m l.
 Proof.
-  induction n as [|n IH] using N.peano_ind.
-  - split; [reflexivity | intros _ k Hk; lia].
-  - rewrite N.iter_succ. destruct IH as [I1 I2]. unfold chk_step at 1. cbn [fst snd]. rewrite I1. split; [reflexivity|].
-    intros H k Hk. apply andb_true_iff in H. destruct H as [H1 H2].
-    destruct (N.eq_dec k n) as [->|Hne]; [rewrite I1 in H2; exact H2 | apply I2; auto; lia].
+  case l; [reflexivity|intro c]. case c; [ | reflexivity..].
+  now simpl; unfold Round.cond_incr; case Z.even.
 Qed.
 
-Lemma chk_sound n : chk n = true -> forall k, (k < n)%N -> succ_exact k = true.
-Proof. unfold chk. exact (proj2 (chk_iter n)). Qed.
+Lemma binary_round_aux_equiv32 sx mx ex lx :
+  SpecFloat.binary_round_aux p32 e32 sx mx ex lx = binary_round_aux p32 e32 mode_NE sx mx ex lx.
+Proof.
+  unfold SpecFloat.binary_round_aux, binary_round_aux.
+  set (mrse' := shr_fexp _ _ _ _ _). case mrse'; intros mrs' e'; simpl.
+  now rewrite (rne_equiv32 sx).
+Qed.
 
-Lemma chk_262144 : chk 262144 = true.
-Proof. vm_compute. reflexivity. Qed.
+Lemma binary_round_equiv32 s m e :
+  SpecFloat.binary_round p32 e32 s m e = binary_round p32 e32 mode_NE s m e.
+Proof.
+  unfold SpecFloat.binary_round, binary_round, shl_align_fexp.
+  set (mez := shl_align _ _ _); case mez as [mz ez]. apply binary_round_aux_equiv32.
+Qed.
 
-Lemma f32_succ_exact (k : N) : (k < 262144)%N ->
+Lemma binary_normalize_equiv32 m e szero :
+  SpecFloat.binary_normalize p32 e32 m e szero = B2SF (binary_normalize p32 e32 Hprec32 Hmax32 mode_NE m e szero).
+Proof.
+  case m as [ | p | p]; [now simpl | |]; simpl; rewrite B2SF_SF2B; apply binary_round_equiv32.
+Qed.
+
+Lemma SFadd_equiv32 (x y : bf32) : SFadd p32 e32 (B2SF x) (B2SF y) = B2SF (Bplus mode_NE x y).
+Proof.
+  destruct x as [sx|sx| |sx mx ex Bx], y as [sy|sy| |sy my ey By];
+    try (now (trivial || simpl; case Bool.eqb)).
+  apply binary_normalize_equiv32.
+Qed.
+
+(** * Integers below 2^24 are binary32 numbers; adding one is exact *)
+
+Definition Bnat (k : N) : bf32 := binary_normalize p32 e32 Hprec32 Hmax32 mode_NE (Z.of_N k) 0 false.
+Definition Bone : bf32 := @B754_finite p32 e32 false 8388608 (-23) (eq_refl true).
+
+Lemma of_N_Bnat k : of_N B32_ops k = B2SF (Bnat k).
+Proof.
+  unfold Bnat. simpl. destruct k as [|p]; [reflexivity|]. simpl Z.of_N. unfold b32_of_Z.
+  apply binary_normalize_equiv32.
+Qed.
+Lemma one_Bone : one B32_ops = B2SF Bone.
+Proof. reflexivity. Qed.
+Lemma B2R_Bone : B2R Bone = 1%R.
+Proof. unfold Bone, B2R, F2R. simpl. lra. Qed.
+
+Lemma int_format (z : Z) : (Z.abs z < 16777216)%Z -> generic_format radix2 fexp32 (IZR z).
+Proof.
+  intros Hz. apply generic_format_FLT. apply FLT_spec with (f := Float radix2 z 0).
+  - unfold F2R; simpl. lra.
+  - simpl. exact Hz.
+  - simpl. unfold emin, e32, p32. lia.
+Qed.
+
+Lemma int_round (z : Z) : (Z.abs z < 16777216)%Z -> round radix2 fexp32 (round_mode mode_NE) (IZR z) = IZR z.
+Proof. intros Hz. apply round_generic; [apply valid_rnd_round_mode | apply int_format; exact Hz]. Qed.
+
+Lemma int_small (z : Z) : (Z.abs z < 16777216)%Z -> Rlt_bool (Rabs (IZR z)) (bpow radix2 e32) = true.
+Proof.
+  intros Hz. apply Rlt_bool_true. rewrite <- abs_IZR. change (bpow radix2 e32) with (IZR (2 ^ 128)).
+  apply IZR_lt. assert (16777216 < 2 ^ 128)%Z by reflexivity. lia.
+Qed.
+
+Lemma Bnat_correct k : (k < 16777216)%N ->
+  B2R (Bnat k) = IZR (Z.of_N k) /\ is_finite (Bnat k) = true /\ Bsign (Bnat k) = false.
+Proof.
+  intros Hk. assert (Hz : (Z.abs (Z.of_N k) < 16777216)%Z) by lia.
+  generalize (binary_normalize_correct p32 e32 Hprec32 Hmax32 mode_NE (Z.of_N k) 0 false).
+  fold (Bnat k). cbv zeta.
+  replace (F2R (Float radix2 (Z.of_N k) 0)) with (IZR (Z.of_N k)) by (unfold F2R; simpl; lra).
+  rewrite (int_round _ Hz), (int_small _ Hz). intros (H1 & H2 & H3). repeat split; auto.
+  rewrite H3. destruct (Rcompare_spec (IZR (Z.of_N k)) 0) as [H|H|H]; auto.
+  apply lt_IZR in H. lia.
+Qed.
+
+Lemma f32_succ_exact_lt (k : N) : (N.succ k < 16777216)%N ->
   add B32_ops (of_N B32_ops k) (one B32_ops) = of_N B32_ops (N.succ k).
-Proof. intros Hk. apply sf_eqb_eq. exact (chk_sound 262144 chk_262144 k Hk). Qed.
+Proof.
+  intros Hk. rewrite !of_N_Bnat, one_Bone. change (add B32_ops) with (SFadd p32 e32).
+  rewrite SFadd_equiv32. f_equal.
+  destruct (Bnat_correct k ltac:(lia)) as (K1 & K2 & K3).
+  destruct (Bnat_correct (N.succ k) Hk) as (S1 & S2 & S3).
+  generalize (Bplus_correct p32 e32 Hprec32 Hmax32 mode_NE (Bnat k) Bone K2 (eq_refl true)).
+  rewrite K1, B2R_Bone. rewrite <- (plus_IZR _ 1).
+  replace (Z.of_N k + 1)%Z with (Z.of_N (N.succ k)) by lia.
+  assert (Hz : (Z.abs (Z.of_N (N.succ k)) < 16777216)%Z) by lia.
+  rewrite (int_round _ Hz), (int_small _ Hz). intros (P1 & P2 & P3).
+  apply B2R_Bsign_inj; auto; [congruence|]. rewrite P3, S3.
+  destruct (Rcompare_spec (IZR (Z.of_N (N.succ k))) 0) as [H|H|H]; auto.
+  - apply lt_IZR in H. lia.
+  - apply eq_IZR in H. lia.
+Qed.
+
+Lemma f32_succ_exact (k : N) : (k < 16777216)%N ->
+  add B32_ops (of_N B32_ops k) (one B32_ops) = of_N B32_ops (N.succ k).
+Proof.
+  intros Hk. destruct (N.eq_dec k 16777215) as [->|Hne]; [vm_compute; reflexivity|].
+  apply f32_succ_exact_lt. lia.
+Qed.
 
 (** adding 1.0f32 c times to +0.0 gives exactly the integer c *)
-Lemma f32_count_exact (c : nat) : (N.of_nat c <= 262144)%N ->
+Lemma f32_count_exact (c : nat) : (N.of_nat c <= 16777216)%N ->
   Nat.iter c (fun v => add B32_ops v (one B32_ops)) (zero B32_ops) = of_N B32_ops (N.of_nat c).
 Proof.
   induction c as [|c IH]; intros Hc; [reflexivity|].
@@ -47,3 +136,7 @@ Proof.
     with (add B32_ops (Nat.iter c (fun v => add B32_ops v (one B32_ops)) (zero B32_ops)) (one B32_ops)).
   rewrite IH by lia. rewrite Nnat.Nat2N.inj_succ. apply f32_succ_exact. lia.
 Qed.
+
+(** the bound is sharp: 2^24 + 1 is not a binary32 number, the count stops growing *)
+Lemma f32_succ_saturates : add B32_ops (of_N B32_ops 16777216) (one B32_ops) = of_N B32_ops 16777216.
+Proof. vm_compute. reflexivity. Qed.
